@@ -62,5 +62,24 @@ Check C04_delivery_is_final : forall FS fs_write_file fs_exec resp_fail not_perf
   r_fs (rrun fs_write_file fs_exec resp_fail not_performed cksum resp_len req_len ops s) = r_fs s /\
   r_phase (rrun fs_write_file fs_exec resp_fail not_performed cksum resp_len req_len ops s) <> RecvData.
 
+(* "once": a step that changes the filestore - stores the delivered file, executes the filestore
+   requests - ends the receive-data phase or the transaction; hence in any history executed the
+   way the transaction's loop does (it stops at Terminated) the filestore changes at most once:
+   after its first change nothing changes it again, whatever else arrives *)
+From CFDP Require Import Proofs.OnceP.
+Theorem C04_step_changes_filestore_only_when_ending : forall FS fs_write_file fs_exec resp_fail not_performed cksum
+  resp_len req_len now o (s : rstate FS),
+  let s' := fst (rstep FS fs_write_file fs_exec resp_fail not_performed cksum resp_len req_len now o s) in
+  r_fs s' = r_fs s \/ r_phase s' <> RecvData \/ r_state s' = TTerminated.
+Proof. exact rstep_changes_filestore_once. Qed.
+Theorem C04_filestore_changes_at_most_once : forall FS fs_write_file fs_exec resp_fail not_performed cksum
+  resp_len req_len ops1 (s : rstate FS) ops2,
+  r_fs (rrun fs_write_file fs_exec resp_fail not_performed cksum resp_len req_len ops1 s) <> r_fs s ->
+  r_fs (rrun fs_write_file fs_exec resp_fail not_performed cksum resp_len req_len (ops1 ++ ops2) s) =
+  r_fs (rrun fs_write_file fs_exec resp_fail not_performed cksum resp_len req_len ops1 s).
+Proof. exact filestore_changes_at_most_once. Qed.
+
 Print Assumptions C04_delivery_is_final.
 Print Assumptions C04_no_integrity_failure_after_success.
+Print Assumptions C04_step_changes_filestore_only_when_ending.
+Print Assumptions C04_filestore_changes_at_most_once.
